@@ -573,14 +573,31 @@ func (w *World) checkProperty(p, tier string, seed int, g *generated, reg *Regis
 	}
 	sort.Slice(retry, func(i, j int) bool { return retry[i].Name < retry[j].Name })
 	if len(retry) > 0 {
-		rr := runAll(retry, outDir, timeout*4, 4, []string{"z3-new", "z3", "cvc5", "cvc5-enum"}, false)
-		for _, r := range rr {
-			oc := byName[r.o.Name]
-			if r.v.Status == "unsat" {
-				oc.v = r.v
-				oc.ok = true
-			} else if r.v.Status == "sat" {
-				oc.v = r.v
+		// in batches: once eight obligations have failed the long retry as well, the tree
+		// is in violation whatever the rest would say, and the remaining ones keep their
+		// first verdict (a full race with the normal timeout) instead of costing
+		// another 4x timeout each
+		confirmed := 0
+		for start := 0; start < len(retry); start += 8 {
+			end := start + 8
+			if end > len(retry) {
+				end = len(retry)
+			}
+			if confirmed >= 8 && tier != "thorough" {
+				break
+			}
+			rr := runAll(retry[start:end], outDir, timeout*4, 4, []string{"z3-new", "z3", "cvc5", "cvc5-enum"}, false)
+			for _, r := range rr {
+				oc := byName[r.o.Name]
+				if r.v.Status == "unsat" {
+					oc.v = r.v
+					oc.ok = true
+				} else {
+					confirmed++
+					if r.v.Status == "sat" {
+						oc.v = r.v
+					}
+				}
 			}
 		}
 	}
